@@ -589,7 +589,7 @@ def provide(nm, det, m, aux, kw, n):
         return None if v is None else ("s", fr(v))
     if nm.startswith("call:"):
         base = nm[5:].split("#")[0]
-        if base == "load_cropped_and_aligned_image" and m["m"] in ("load_image", "load_charge", "usaf_illumination"):
+        if base == "load_cropped_and_aligned_image" and m["m"] in ("load_image", "load_charge", "usaf_illumination", "qe_map"):
             img = [fr(v) for v in (aux["image"] if "image" in aux else m["data"])]
             return ("p", img) if len(img) == n else None
         if base in ("calculate_illumination", "compute_pattern") and m["m"] in ("illumination", "stripe_pattern"):
@@ -642,6 +642,63 @@ def build_rate(item, res):
     return (f"{{| rc_tol := {Q(tol_of(item, exact))}; rc_row := {idx}%nat; rc_env := {core.clist(scal)}; "
             f"rc_pix := {core.clist(core.clist(x) for x in pix)}; rc_steps := {QL(fr(s) for s in p['steps'])}; "
             f"rc_obs := {core.clist(QL(o) for o in obs)} |}}")
+
+
+def conv_row_of(kind, kw):
+    """(index, row, full kwargs) of the conv_table row whose option conditions hold for these keyword arguments."""
+    st = TABLE["st"]
+    if st is None or not st.get("conv_rows"):
+        raise Skip("no conversion table")
+    key = next((k for k, v in st["conv_models"].items() if v["kind"] == kind), None)
+    if key is None:
+        raise Skip(f"no conversion table entry for {kind}")
+    full = dict(st["conv_models"][key]["defaults"])
+    full.update(kw)
+    rows = [(i, r) for i, r in enumerate(st["conv_rows"]) if r["model"] == key and all(cond_true(c, full) for c in r["conds"])]
+    if len(rows) != 1:
+        raise Skip(f"{len(rows)} conversion rows match the options of {kind}")
+    return rows[0][0], rows[0][1], full
+
+
+def build_conv(item, res):
+    """The translated expression of a conversion / collection model, evaluated inside Coq on the actual source bucket
+    content and arguments, against what the implementation added to the sink bucket."""
+    p = item["payloads"][0]
+    det, m = p["det"], p["model"]
+    n = det["rows"] * det["cols"]
+    aux = res.get("aux", {})
+    idx, row, kw = conv_row_of(m["m"], decode_kw(aux.get("kw")))
+    names, bads = expr_vars(row["expr"])
+    if row.get("random") or bads:
+        raise Skip("the conversion row is not a deterministic arithmetic expression")
+    scal, pix = [], [[] for _ in range(n)]
+    for nm in names:
+        v = provide(nm, det, m, aux, kw, n)
+        if v is None:
+            raise Skip(f"no value for table variable {nm}")
+        if v[0] == "s":
+            scal.append(f"({core.cstr(nm)}, {Q(v[1])})")
+        else:
+            for i in range(n):
+                pix[i].append(f"({core.cstr(nm)}, {Q(v[1][i])})")
+    pre = p["prefill"]
+    zero = [H(0.0)] * n
+    e = res["steps"][0].get("prefilled")
+    if not e or "raise" in e:
+        raise ValueError(f"model call failed: {e}")
+    src = [fr(v) for v in (pre.get(row["src"]) or zero)]
+    before = [fr(v) for v in (pre.get(row["sink"]) or zero)]
+    after = [fr(v) for v in (e[row["sink"]] or zero)]
+    exact = exact_possible([m], [aux])
+    return (f"{{| cc_tol := {Q(tol_of(item, exact))}; cc_row := {idx}%nat; cc_env := {core.clist(scal)}; "
+            f"cc_pix := {core.clist(core.clist(x) for x in pix)}; cc_src := {QL(src)}; "
+            f"cc_obs := {QL(a - b for a, b in zip(after, before))} |}}")
+
+
+def emit_conv_file(lits) -> str:
+    body = ";\n  ".join(lits)
+    return (RATE_HEADER + f"Definition cases : list conv_case := [\n  {body}\n].\n"
+            "Eval vm_compute in conv_mismatches conv_table cases.\nEval vm_compute in conv_illposed conv_table cases.\n")
 
 
 RATE_HEADER = ("From Coq Require Import QArith List String.\nFrom PyxelV Require Import Model.Flux Model.FluxExpr.\n"
@@ -733,6 +790,7 @@ def call_items(ctx, r, n_extra, dy):
             pl = dict(kind="call", det=det, model=m, steps=[H(gen_increment(r, dy)) for _ in range(2)],
                       time=H(5.0), prefill=pre, skip_empty=True)
             items.append(dict(type="lin", dy=dy, payloads=[pl], name=kind))
+            items.append(dict(type="conv", dy=dy, payloads=[pl], name=kind))
     return items
 
 
@@ -886,7 +944,7 @@ def corpus_items():
     out = []
     for f in sorted((core.VERIF / "harness" / "corpus" / "C17").glob("*.json")):
         c = json.loads(f.read_text())
-        if c.get("type") in ("exp", "pair", "scale", "inc", "lin", "rate", "life", "sched") and c.get("payloads"):
+        if c.get("type") in ("exp", "pair", "scale", "inc", "lin", "rate", "life", "sched", "conv") and c.get("payloads"):
             out.append({k: c[k] for k in ("type", "dy", "payloads", "c", "refused", "name") if k in c})
     return out
 
@@ -933,6 +991,8 @@ def evaluate(ctx: Ctx, items, tag="c", per=30):
                 lits = [build_rate(it, rs[0])]
             elif it["type"] == "life":
                 lits = [build_life(it, rs[0])]
+            elif it["type"] == "conv":
+                lits = [build_conv(it, rs[0])]
             else:
                 lits = build_lin(it, rs[0])
         except Skip as ex:
@@ -947,9 +1007,9 @@ def evaluate(ctx: Ctx, items, tag="c", per=30):
     files, chunks = {}, {}
     # keep files small: a case with many pixels and readouts is a long literal
     def group_of(rec):
-        return rec["item"]["type"] if rec["item"]["type"] in ("rate", "life") else "flux"
+        return rec["item"]["type"] if rec["item"]["type"] in ("rate", "life", "conv") else "flux"
 
-    for grp, emit in (("flux", emit_file), ("rate", emit_rate_file), ("life", emit_life_file)):
+    for grp, emit in (("flux", emit_file), ("rate", emit_rate_file), ("life", emit_life_file), ("conv", emit_conv_file)):
         cur, size, k = [], 0, 0
         for rec in [x for x in recs if group_of(x) == grp]:
             cur.append(rec)
@@ -970,7 +1030,7 @@ def evaluate(ctx: Ctx, items, tag="c", per=30):
         if not ok or len(evals) != 2:
             ctx.broken.append(Broken("correspondence", f"case file {name}.v did not evaluate", core.tail(se, 15)))
             continue
-        is_rate = chunks[name][0]["item"]["type"] == "rate"
+        is_rate = chunks[name][0]["item"]["type"] in ("rate", "conv")
         for i in core.parse_int_list(evals[0]):
             chunks[name][i]["mismatch"] = True
         for i in core.parse_int_list(evals[1]):
@@ -1030,7 +1090,7 @@ def describe(rec):
     if it["type"] == "life":
         arg = "" if p["arg"] == "default" else str(bool(p["arg"]))
         return f"{kind}.empty({arg}) on a detector whose photon, charge and pixel buckets hold data"
-    if it["type"] in ("inc", "lin", "rate"):
+    if it["type"] in ("inc", "lin", "rate", "conv"):
         return (f"{p['model']['m']} called with time steps {[float.fromhex(s) for s in p['steps']]} on a "
                 f"{p['det']['rows']}x{p['det']['cols']} {kind} detector")
 
@@ -1173,6 +1233,11 @@ def collect(ctx: Ctx, recs, shrink=True):
             ctx.broken.append(Broken("correspondence", "translated bucket lifecycle (Gen_C17.det_table) vs implementation",
                                      "what the table read from the source says detector.empty does differs from what it "
                                      "did: " + describe(rec), dict(type=it["type"], payloads=it["payloads"])))
+        elif rec["mismatch"] and it["type"] == "conv":
+            ctx.broken.append(Broken("correspondence", "translated conversion expression (Gen_C17.conv_table) vs implementation",
+                                     "the expression read from the source, evaluated in Coq on the actual bucket content, "
+                                     "differs from what the model added (or the case is ill-posed): " + describe(rec),
+                                     dict(type=it["type"], payloads=it["payloads"])))
         elif rec["mismatch"] and it["type"] == "rate":
             ctx.broken.append(Broken("correspondence", "translated increment expression (Gen_C17.rate_table) vs implementation",
                                      "the expression read from the source, evaluated in Coq on the actual arguments, differs "
@@ -1254,8 +1319,8 @@ def coverage(ctx: Ctx, recs):
                 opts = [k for k in ("time_scale", "multiplier", "convert", "position", "align", "data_shape", "angle",
                                     "band_gap", "cutoff", "object_center") if mm.get(k) not in (None, False)]
                 ctx.dist("options_called", mm["m"] + "(" + ",".join(opts) + ")")
-            if t == "rate":
-                ctx.dist("rate_case", "judged in Coq against the translated row")
+            if t in ("rate", "conv"):
+                ctx.dist("rate_case" if t == "rate" else "conv_case", "judged in Coq against the translated row")
             nontrivial = True
         if nontrivial:
             seen.add(json.dumps([t, it["payloads"], rec.get("sub", 0)], sort_keys=True))
@@ -1334,6 +1399,8 @@ def translator_leg(ctx: Ctx) -> bool:
                                  expression_shaped=len(st["expr_models"]), excluded_models=len(st["excluded"]),
                                  rate_table_rows=len(st["rows"]),
                                  deterministic_rows=sum(1 for x in st["rows"] if not x.get("random")),
+                                 conversion_rows=len(st.get("conv_rows", [])),
+                                 deterministic_conversion_rows=sum(1 for x in st.get("conv_rows", []) if not x.get("random")),
                                  detector_classes=[c["name"] + ("" if c["empty"] is None else " (own empty)") for c in st["family"]],
                                  readout_loops=[lp["name"] for lp in st["loops"]])
     known = set(KIND_CLASS.values()) | {"Detector"}
@@ -1346,6 +1413,17 @@ def rejected_lifecycle(ctx: Ctx):
     text = ("From Coq Require Import List.\nFrom PyxelV Require Import Model.FluxDet.\n"
             "From PyxelGen Require Import Gen_C17.\nEval vm_compute in bad_classes det_table.\n"
             "Eval vm_compute in bad_loops det_table loop_table.\n")
+    ctext = ("From Coq Require Import List.\nFrom PyxelV Require Import Model.FluxExpr.\n"
+             "From PyxelGen Require Import Gen_C17.\nEval vm_compute in bad_conv_rows conv_table.\n")
+    okc, evc, _ = core.coq_eval(ctx, "bad_conv", ctext)
+    st = TABLE["st"]
+    if okc and evc and st is not None:
+        for i in core.parse_int_list(evc[0]):
+            if i < len(st.get("conv_rows", [])):
+                row = st["conv_rows"][i]
+                ctx.log(f"conversion row rejected (not [a step-independent factor] * {row['src']}): {row['model']} "
+                        f"[{' & '.join(row['conds']) or 'always'}]")
+                ctx.cov.setdefault("rejected_conv_rows", []).append(f"{row['model']}: {' & '.join(row['conds'])}")
     ok, evals, se = core.coq_eval(ctx, "bad_lifecycle", text)
     if not ok or len(evals) != 2:
         return
@@ -1449,7 +1527,7 @@ def replay(ctx: Ctx, rp: dict) -> int:
         print(rp.get("detail", ""))
         return 1
     core.ensure_lib(ctx, targets=core.lib_targets_of([(core.THEORIES / PROP_FILE).read_text()]))
-    if case.get("type") in ("rate", "life"):
+    if case.get("type") in ("rate", "life", "conv"):
         translator_leg(ctx)
     it = copy.deepcopy(case)
     recs = evaluate(ctx, [it], tag="replay")
